@@ -4,7 +4,7 @@ built from /repo with -tags verif), feeds the same operations to the Lean
 model driver, compares, and evaluates the property's specification on the
 implementation's results.
 """
-import os, subprocess, collections, re
+import os, subprocess, collections, re, json
 
 
 class Ctx:
@@ -436,6 +436,19 @@ def REGISTRY(prop):
                         "two-level round-robin registry model", 60, 1500, compare="full")
 
 
+def META(prop):
+    return world_family("meta", "^TestW2Meta$", "meta", MON.MetaMonitor, prop, "meta.init",
+                        "W2 metadata: forward tunnel over grpc-go on bufconn; per case a scripted handler sets headers/trailers in one of three call orders and "
+                        "returns one of the 17 codes with message (ASCII, UTF-8, empty) and optional detail list; the caller uses Invoke or a bidi stream with the "
+                        "call options Header, Trailer, Peer, PerRPCCredentials with and without outgoing metadata; metadata classes absent/empty/multi-valued/-bin/"
+                        "UTF-8/empty value and (rarely) non-UTF-8 bytes; after each case a bystander RPC checks that the tunnel is alive",
+                        150, 3000, compare="contains")
+
+
+UTF8 = ops_family("utf8", "^TestPureUTF8$", ["utf8"], rule="Metadata.validUTF8 vs utf8.Valid and vs proto.Marshal of the converted metadata, on boundary and random byte strings",
+                  nontrivial=lambda op, im, mo: "valid=0" in im, n_quick=3000, n_thorough=100000)
+
+
 def LIFECYCLE(prop):
     return world_family("lifecycle", "^TestW2Lifecycle$", "lifecycle", MON.LifecycleMonitor, prop, "l.init",
                         "W2 lifecycle: one ReverseTunnelServer with several Serve calls over grpc-go on bufconn, echo and non-reading in-flight RPCs, "
@@ -446,6 +459,64 @@ def LIFECYCLE(prop):
 
 def SWORLD(prop):
     return world_family("sworld", "^TestSWorldRandom$", "sworld", MON.SWorldMonitor, prop, "svc ", _SWORLD_RULE, 300, 6000)
+
+
+def race_family(prop, secs_quick=8, secs_thorough=90):
+    """Free-running -race stress (C15 support, C02 trailer publication): any race report, panic or timeout is a violation
+    with the report as replay; `ok_without_trailers` counts successful calls whose trailers were not available right after
+    the terminal result."""
+    def fam(ctx):
+        fr = FamResult("race")
+        fr.rule = ("free-running stress outside any bubble, built with -race: 6 workers issuing unary and bidi RPCs (one sender + one receiver goroutine per RPC, "
+                   "call-option targets read right after completion) on a forward channel that a janitor closes and replaces, Start() racing with cancellation "
+                   "of its context, reverse tunnel servers that Serve/Stop/GracefulStop/cancel while RPCs are routed through AsChannel/KeyAsChannel, registry "
+                   "queries, random delays at the verif yield points")
+        if not getattr(ctx, "race_bin", None):
+            fr.failures.append({"kind": "corr", "key": "race-binary", "what": "race-instrumented harness not built", "replay_lines": []})
+            return fr
+        out_dir = os.path.join(ctx.workdir, "race")
+        os.makedirs(out_dir, exist_ok=True)
+        secs = secs_thorough if ctx.thorough else secs_quick
+        env = dict(os.environ, VERIF_OUT=out_dir, VERIF_SEED=str(ctx.seed), VERIF_SECS=str(secs), GORACE="halt_on_error=0 history_size=2")
+        p = subprocess.run([ctx.race_bin, "-test.run", "^TestRaceStress$", "-test.count=1", "-test.timeout", f"{secs + 120}s"],
+                           env=env, stdout=subprocess.PIPE, stderr=subprocess.STDOUT, text=True, errors="replace", cwd=out_dir,
+                           timeout=secs + 300)
+        out = p.stdout
+        stats = {}
+        sp = os.path.join(out_dir, "race.stats")
+        if os.path.exists(sp):
+            stats = dict(kv.split("=") for kv in open(sp).read().split())
+        fr.evaluations = int(stats.get("calls", 0)) or 1
+        fr.distinct_nontrivial = int(stats.get("ok", 0))
+        fr.samples = [{"family": "race", "stats": stats, "seconds": secs}]
+        races = out.split("WARNING: DATA RACE")[1:]
+        seen = set()
+        for r in races:
+            frames = re.findall(r"^\s+((?:github.com/jhump/grpctunnel|verif/harness)\S*)\(", r, re.M)
+            tops = []
+            for part in re.split(r"Previous (?:write|read) at", r)[:2]:
+                m = re.search(r"^\s+(\S+)\(\)", part, re.M)
+                tops.append(m.group(1).split("/")[-1] if m else "?")
+            key = "race:" + "|".join(tops)
+            key = re.sub(r"[^A-Za-z0-9_.:|*()-]", "_", key)
+            if key in seen:
+                continue
+            seen.add(key)
+            if prop == "C15":
+                fr.failures.append({"kind": "monitor", "key": key, "what": f"data race reported by the Go race detector: {' vs '.join(tops)}",
+                                    "replay_lines": ["WARNING: DATA RACE" + r[:4000], f"(free-running stress, seed {ctx.seed}, {secs} s; re-run the C15 check to reproduce)"]})
+        if "panic:" in out or "fatal error:" in out:
+            fr.failures.append({"kind": "monitor", "key": "panic-or-deadlock", "what": "panic / fatal error in the free-running stress",
+                                "replay_lines": [out[-4000:]]})
+        elif p.returncode != 0 and not races:
+            fr.failures.append({"kind": "corr", "key": "race-harness", "what": f"stress harness exited {p.returncode}", "replay_lines": [out[-3000:]]})
+        if prop == "C02" and int(stats.get("ok_without_trailers", 0)) > 0:
+            fr.failures.append({"kind": "monitor", "key": "trailers-not-published-at-terminal-result",
+                                "what": f"{stats['ok_without_trailers']} of {stats.get('ok')} successful calls had no trailers right after the terminal result (Recv=EOF / Invoke returned)",
+                                "replay_lines": [json.dumps(stats), "free-running stress: Trailer() / grpc.Trailer target read immediately after RecvMsg returned io.EOF or Invoke returned nil"]})
+        fr.summary = {"stats": stats, "races": len(races), "seconds": secs}
+        return fr
+    return fam
 
 
 def tiered(quick, thorough):
@@ -488,6 +559,17 @@ PROPS = {
         "trusted_base": ["L-frame server endpoint model TunnelModel/LFrame/Server.lean (closing flag in createStream)"],
         "assumptions": ["as C08"],
     },
+    "C15": {
+        "lean_targets": ["Proofs.Props.C15"],
+        "prop_files": ["Proofs/Props/C15.lean"],
+        "families": [race_family("C15"), META("C15")],
+        "needs_race": True,
+        "trusted_base": ["syntactic lock/access extractor /verif/harness/extract/locks.go (go/ast; intra- and inter-procedural held-lock sets)",
+                         "hand-written protections table in Proofs/Props/C15.lean (DESIGN.md appendix G)",
+                         "Go race detector (supporting evidence and failing-input search only)"],
+        "assumptions": ["PARTIAL: the Go memory model, the soundness of the syntactic analysis (aliasing, closures stored and called later are treated as holding no lock), and library code (grpc-go, context) are outside the obligation",
+                        "publication-ordered fields (headers, trailers, settings) rely on the order of statements inside the publishing function, which is checked by the hook-level publish family / the L-atomic model, not by the table"],
+    },
     "C16": {
         "lean_targets": ["Proofs.Props.C16"],
         "prop_files": ["Proofs/Props/C16.lean"],
@@ -514,10 +596,24 @@ PROPS = {
                          "L-frame client endpoint model TunnelModel/LFrame/Client.lean (settings phase)"],
         "assumptions": ["the negotiate header is exchanged by grpc-go metadata as the handlers expect (exercised in the W2 interop family)"],
     },
+    "C02": {
+        "lean_targets": ["Proofs.Props.C07"],
+        "prop_files": [],
+        "families": [META("C02"), UTF8, W1("C02"), CWORLD("C02"), SWORLD("C02"), race_family("C02")],
+        "needs_race": True,
+    },
+    "C12": {
+        "lean_targets": ["Proofs.Props.C12"],
+        "prop_files": ["Proofs/Props/C12.lean"],
+        "families": [REGISTRY("C12")],
+        "trusted_base": ["API-granular registry model TunnelModel/Lifecycle.lean + RoundRobin.lean (one step = one API event at quiescence)"],
+        "assumptions": ["tunnel ids are never reused (legal ops); steps below quiescence granularity (the two registration steps of openReverseTunnel, unregister) are covered by the hook-level family when present, not by this theorem",
+                        "grpc-go delivers stream open/close to the handler (real grpc-go on bufconn in the harness)"],
+    },
     "C03": {
         "lean_targets": ["Proofs.Props.C03"],
         "prop_files": ["Proofs/Props/C03.lean"],
-        "families": [W1("C03"), SWORLD("C03"), CWORLD("C03")],
+        "families": [W1("C03"), SWORLD("C03"), CWORLD("C03"), META("C03")],
         "trusted_base": ["L-frame server endpoint model TunnelModel/LFrame/Server.lean; client endpoint model TunnelModel/LFrame/Client.lean"],
         "assumptions": ["as C08", "bounded transport buffering (finite K) is represented by the loop-idle observation B=1 of the harness, not by a theorem yet"],
     },
